@@ -26,12 +26,12 @@ namespace GeographicLib {
       throw GeographicErr("Latitude " + Utility::str(lat)
                           + "d not in [-" + to_string(Math::qd)
                           + "d, " + to_string(Math::qd) + "d]");
+    lon = Math::AngNormalize(lon); // This turns +/-inf into NaN
     if (isnan(lat) || isnan(lon)) {
       geohash = "invalid";
       return;
     }
     if (lat == Math::qd) lat -= lateps / 2;
-    lon = Math::AngNormalize(lon);
     if (lon == Math::hd) lon = -Math::hd; // lon now in [-180,180)
     // lon/loneps in [-2^45,2^45); lon/loneps + shift in [0,2^46)
     // similarly for lat
